@@ -27,11 +27,7 @@ func cmdVocab() {
 	}
 	sort.Slice(fns, func(i, j int) bool { return fns[i].Name < fns[j].Name })
 	var aggs, bins []string
-	for it := parser.ItemType(0); it < 200; it++ {
-		s, ok := parser.ItemTypeStr[it]
-		if !ok {
-			continue
-		}
+	for it, s := range parser.ItemTypeStr {
 		if it.IsAggregator() {
 			aggs = append(aggs, s)
 		}
@@ -39,6 +35,8 @@ func cmdVocab() {
 			bins = append(bins, s)
 		}
 	}
+	sort.Strings(aggs)
+	sort.Strings(bins)
 	json.NewEncoder(os.Stdout).Encode(map[string]any{"functions": fns, "aggregators": aggs, "operators": bins})
 }
 
